@@ -53,6 +53,10 @@ class FlowAxesConversion:
                         if cls == "FlowField" and grids == "per-item":
                             continue
                         yield {"axes": a, "to_axes": b, "grids": grids, "cls": cls}
+                # a grid whose stored size is fractional (a pyramid level of an odd-sized grid: 7 x 5 -> 3.5 x 2.5, i.e. 4 x 3
+                # samples): the number of samples is the rounded-up size everywhere
+                if a != b:
+                    yield {"axes": a, "to_axes": b, "grids": "fractional-size", "cls": "FlowField"}
 
     def run(self, case, K):
         from deepali.core.grid import Axes
@@ -60,7 +64,14 @@ class FlowAxesConversion:
 
         D = 2
         a, b = case["axes"], case["to_axes"]
-        g1, gs1 = make_grid(K, "g", D, sizes=SIZE)
+        if case["grids"] == "fractional-size":
+            from contracts.c03_derived import spec_of
+
+            g0, _ = make_grid(K, "g", D, sizes=(7, 5))
+            g1 = g0.downsample()
+            gs1 = spec_of(K, g1, N=[E.const(n) for n in SIZE])
+        else:
+            g1, gs1 = make_grid(K, "g", D, sizes=SIZE)
         if case["grids"] == "per-item":
             g2, gs2 = make_grid(K, "h", D, sizes=SIZE, align_corners=False)
             outside_eq_band(K, gs1, gs2)
